@@ -17,7 +17,8 @@ CHECKS = {
          "conditions, version discipline); TLC-generated request sequences are replayed on every CoreState stack "
          "(inmem, small-history inmem, bbolt with three marshalers, Filter, real gRPC) and every recorded step "
          "(error-predicate vector, write-back, full contents) is judged by TLC against the specification; concurrent "
-         "real-thread histories are accepted only if TLC finds linearization points (TraceStoreLin).",
+         "real-thread histories are accepted only if TLC finds linearization points (TraceStoreLin). "
+         "Histories that start on a restarted persistent-backed state whose first access is made by two clients at once (one parked inside the backing store's Load) are driven and judged too (TracePersist raceread).",
     note="Trusted: TLC, the Go projection of resources/errors (harness/vh). Real-thread histories sample schedules, "
          "they do not enumerate them; bounded domains (2 ids x 2 namespaces x 2 types, 3 owners, 2 finalizers).",
     technique="TLA+ sequential spec + TLC model checking; model-based replay and TLC trace validation (incl. linearizability acceptor)",
@@ -63,7 +64,8 @@ CHECKS = {
          "wrote at most once on top of the current value of the same incarnation and every failed call wrote nothing; "
          "the judge TraceHelpers.tla checks on every real trace: written value = mutation applied to the then-current "
          "value, applied exactly once, returned object = written object, errors had no effect, owner/phase conflicts never "
-         "turned into success, no call spins forever.",
+         "turned into success, no call spins forever. "
+         "The token mutators also count their applications (not idempotent), so a mutation applied twice on the way to one successful write is rejected (applied-twice); a dedicated program menu (create / destroy racing Modify's create path) with an alternating scheduler bias is part of every run, and a directed schedule reproduces the open ABA finding.",
     note="Trusted: as C03. Known finding C04/aba (stale update over a re-created incarnation with coinciding version) is "
          "listed in known_findings.json and modelled as the named deviation RecreateSameVersionABA.",
     technique="TLA+ helper step-machine model + TLC; schedule replay through a gating proxy; TLC trace validation",
@@ -104,7 +106,8 @@ CHECKS = {
          "complete matrix (2520 rows), checks every row (rejected => unchanged, created => stamped, foreign resources only with "
          "an explicit owner) and emits it; every row (thorough) or a seeded quarter (quick) is executed through the real "
          "runtime adapters of a probe Controller / QController, with cached and uncached kinds, and the recorded outcome class "
-         "and resulting value are judged by TLC (TraceAccess.tla).",
+         "and resulting value are judged by TLC (TraceAccess.tla). "
+         "Output tracking (StartTrackingOutputs / CleanupOutputs) is modelled in OutTrack.tla (exact victims, foreign resources untouched, failed cleanup keeps the tracker, panics on misuse, restart discards the tracker), checked exhaustively, and random walks of it are replayed through a probe controller with every command judged by TraceOutTrack.",
     note="Trusted: TLC, the error classification of harness/vh (an access denial is an unclassifiable error). One namespace; "
          "write rate limiting not exercised.",
     technique="TLA+ access matrix + TLC enumeration; exhaustive matrix replay through the real adapters; TLC trace validation",
@@ -141,7 +144,8 @@ CHECKS = {
          "cancellation at a TLC-schedule index chosen per behaviour and injected Errored watch events, judged for: Run returns, "
          "returns the watch error (and no error on plain cancel), no reconcile activity and no leaked goroutine after Run "
          "returned; restart sequences (error / panic / reset) of a controller, a run hook and a task judged against the "
-         "back-off envelope with a fresh reconcile after every restart (TraceBackoff).",
+         "back-off envelope with a fresh reconcile after every restart (TraceBackoff). "
+         "Failing queue items of a QController (error, panic, requeue with and without interval, including RequeueError(err, 0)) are driven and judged against the back-off envelope with the nothing-lost rule (stage shared with C09 b).",
     note="Trusted: as C05; goroutine leak measured by process goroutine count inside the bubble.",
     technique="TLA+ pipeline/back-off models + TLC; fault-schedule replay in virtual time; TLC trace validation",
     ref="5.16"),
@@ -180,7 +184,8 @@ CHECKS = {
          "events are recorded, after every crash the re-opened contents; TLC judges (TracePersist.tla on top of Store.tla): "
          "memory = disk = specification, failed writes invisible to memory, disk and watchers, state after restart = "
          "acknowledged prefix (+ the in-flight operation at most), all fields and creation time intact, later operations "
-         "continue from it.",
+         "continue from it. "
+         "The load is modelled as LoadStart / LoadItem* / LoadOK|LoadFail with a concurrent reader (ReadsSeeDisk); restarts whose first access is made by two clients at once (client A parked inside Load after 0 or 1 injected resources, client B issuing get / list / create) are driven and judged (raceread).",
     note="Trusted: TLC, bbolt transaction atomicity; crashes are in-process (state dropped, file closed/re-opened) at the "
          "decorator's crash points; SIGKILL inside bbolt transactions is not driven.",
     technique="TLA+ persistence model + TLC; fault/crash-annotated replay on inmem+bbolt; TLC trace validation",
@@ -196,7 +201,8 @@ CHECKS = {
          "equality of class, predicate vector, written-back version/owner/update-time fact, readiness, contents, watch streams "
          "event for event, stickiness, and agreement of the direct side with the sequential spec. Malformed.tla enumerates the "
          "wire-level request lattice (~350 shapes); a raw client sends every shape to a server in a child process; TLC judges "
-         "`process alive` and `malformed => error status`.",
+         "`process alive` and `malformed => error status`. "
+         "The request lattice includes requests without any options message; multi-term label / ID selectors evaluated through the wire must select what the selector algebra selects (selector stage shared with C14, remote sites).",
     note="Trusted: TLC, gRPC. Sequential sequences only (no racing calls). Watch streams are compared after the remote side "
          "caught up (5 s budget).",
     technique="TLA+ code tables / request lattice + TLC; differential lock-step replay over real gRPC; child-process fault probe; TLC trace validation",
@@ -210,7 +216,8 @@ CHECKS = {
          "while writes continue during the outage; everything the subscriber received is judged by TLC with the same judge as "
          "local watches (TraceWatch.tla: exact prefix of the committed log after the start contents - no gap, duplicate, "
          "reorder, bootstrap re-delivery - nothing missing at the end) plus: a terminal Errored after a fault is accepted only "
-         "if retries are disabled, no bookmark had been seen, or the last bookmark is no longer valid.",
+         "if retries are disabled, no bookmark had been seen, or the last bookmark is no longer valid. "
+         "A regression corpus (behaviours on which defects were found) is replayed in every run.",
     note="Trusted: TLC, synctest virtual time, the stream shim (harness code implementing grpc stream interfaces). Outages are "
          "shorter than the 15 min retry budget; real-wire server restarts are not driven.",
     technique="TLA+ ring/bookmark model + TLC; fault-schedule replay of the real client/server pair in virtual time; TLC trace validation",
@@ -238,7 +245,8 @@ CHECKS = {
          "live), the runtime ResourceCache List (facade), gRPC List and gRPC kind watch (client translation -> wire -> server "
          "conversion) - and TLC judges each site's matched set against the algebra (TraceSelector.tla); ID-regexp selectors: "
          "all sites must agree with regexp.MatchString. Filtered kind watches as exact change logs of the filtered set are "
-         "model-checked (WatchLog.tla rewrite rule) and replayed/judged as in C02.",
+         "model-checked (WatchLog.tla rewrite rule) and replayed/judged as in C02. "
+         "Selector.tla enumerates every ordered pair of representative terms as AND-row and as OR-row plus inverted/plain triples; the quick tier keeps all mixed-inversion pairs.",
     note="Trusted: TLC, Go's regexp engine, the curated string tables (10 strings).",
     technique="TLA+ selector algebra + TLC truth-table enumeration; table replay at every selector site; TLC trace validation",
     ref="5.14"),
@@ -252,7 +260,8 @@ CHECKS = {
          "public mutator: labels Set/Delete/Do, annotations, finalizers Add/Remove/Set, phase, version, owner, spec) run on "
          "the in-memory state, the gRPC stack and the runtime ResourceCache fed from a kind watch exactly as the runtime does; "
          "after every step the store contents (read independently), a watch-fed replica and every held object are logged and "
-         "TLC judges that a mutation changed only the mutated handle (TraceAlias.tla).",
+         "TLC judges that a mutation changed only the mutated handle (TraceAlias.tla). "
+         "Filtered lists (label query, ID query) are part of the programs on every stack.",
     note="Trusted: TLC, the canonical rendering of resources in harness/c19. Watch-delivered event objects are never mutated "
          "(no isolation promised for them).",
     technique="TLA+ heap/copy-on-write model + TLC; program replay on three stacks; TLC trace validation",
@@ -267,7 +276,8 @@ CHECKS = {
          "placed exactly at / just above the inner encoding size), the protobuf wire form, metadata YAML and version/phase "
          "text forms, and decodes every truncation and four substitutions per byte of every stacking's encoding plus a wrong "
          "key, each under recover; TLC judges the outcome classes (TraceCodec.tla). Not claimed: totality over ARBITRARY byte "
-         "strings (no state machine behind it; that is fuzzing territory).",
+         "strings (no state machine behind it; that is fuzzing territory). "
+         "Records are independent values: every shape is encoded with one long-lived marshaler per stacking, the encodings are kept and decoded only after all later encodings were produced.",
     note="Trusted: AES-GCM, zstd, TLC. Bounded neighbourhoods only. Known finding: metadata YAML truncates sub-second timestamps.",
     technique="TLA+ codec case analysis + TLC enumeration of vectors; bounded-exhaustive tamper replay; TLC trace validation",
     ref="5.18"),
